@@ -7,7 +7,7 @@ TARGETS = ["Base/Corr.vo", "C10/Gen.vo", "C10/GenAcc.vo", "C10/GenLoop.vo", "C10
            "C10/ProofsTip.vo", "C10/ProofsTipGen.vo", "C10/ProofsOpsView.vo", "C10/ProofsSparse.vo", "C10/ProofsSparseT.vo",
            "C10/ProofsAcc.vo", "C10/ProofsPermView.vo", "C10/ProofsTipAll.vo", "C10/ProofsTipView.vo",
            "C10/ModelBin.vo", "C10/CorrBin.vo", "C10/ProofsBinView.vo", "C10/ProofsJoint.vo",
-           "C10/ModelMap.vo", "C10/CorrMap.vo", "C10/ProofsMap.vo", "C10/Props.vo"]
+           "C10/ModelMap.vo", "C10/CorrMap.vo", "C10/ProofsMap.vo", "C10/ProofsEqViews.vo", "C10/Props.vo"]
 PROPS = ["C10/Props.v"]
 PARTIAL = (
     "The integer kernels (index, ij, SLICE/Slice/ConstSlice, T/MagicT, Dims, dense iterator Ok/next/Index) are re-translated "
@@ -45,6 +45,19 @@ PARTIAL = (
     "final closure state / result / panic as on an independent deep copy, to leave the view with the copy's elements, with "
     "frame and 'heap = copy written back'; Reduce is proved to be the left fold over the row-major elements and Map/MapSet to be "
     "the sequential run of the callback over the row-major elements (map_closed_form: final state, produced values in place, frame). "
+    "Round 7: Equals/EQUALS with BOTH sides views of ONE storage (shifted windows, a square window against its own T(), a window "
+    "against itself) is replayed in the second stream (BEquals = ModelMap.mEquals on two headers over one heap; constant / periodic / "
+    "symmetric parents so both outcomes occur) and proved in closed form on every pair of well-formed views: dimension panic or "
+    "'every position holds equal elements' (equals_closed_form, equals_true_iff_all_elements_equal -- no hypothesis on storage, offsets "
+    "or flags), hence equal to the call on two independent deep copies in both argument orders "
+    "(equals_on_two_views_equals_on_deep_copies); the hunt sweeps every pair of equally shaped (transposed) windows of a 3x3 parent "
+    "in all eight dense element types, both spellings. View programs of the dense streams and of the hunt now carry DISCARDED "
+    "constructor calls (T(), Slice(whole), T().T() on the object a step starts from, e.g. parent.T() dropped, then Slice, then T()): "
+    "in the model the constructors are pure functions of the header, so the replay and the oracle decide that no state is cached in "
+    "a header and carried into later views by `m := *matrix`; this purity is tied by replay/oracle only (there is no Go-side "
+    "theorem; a new struct field is flagged by the translator as a kernel outside the grammar). The JSON observable on MALFORMED "
+    "dense views that take MarshalJSON's raw-storage branch (rows*cols != len(values): UnmarshalJSON rejects the text since d37b260) "
+    "is now the marshalled text decoded field by field (the model's mJSON is MarshalJSON, not the round trip). "
     "Still not modelled / not proved: callbacks that RE-ENTER the matrix (read or write other elements of the receiver or its "
     "parent while being called); a closed form of the writing iterator (it is proved equal to the run on a deep copy only); "
     "matrix-scalar operations whose RECEIVER is elsewhere and whose operand is the view (replayed only); MdivM "
